@@ -122,7 +122,7 @@ def denoSectionOf (content : Text) (child : Node) : Option Node :=
 def denoSections (content : Text) (root : Node) : List Node := root.children.filterMap (denoSectionOf content)
 
 def denoJson (content : Text) (tree : Node) : List PkgInfo :=
-  match tree.child0 with
+  match tree.firstValue with
   | some doc => if doc.kind == "object" then (denoSections content doc).flatMap (denoPackagesOfImports content) else []
   | none => []
 
@@ -378,8 +378,12 @@ def isHash (v : Text) : Bool := byteLen v == 40 && v.all isAsciiHexDigit
 def ghaVStart (content : Text) (node : Node) : Nat :=
   match findChar? (· == '@') (unquoteBoth (nodeText content node)) with | some p => p + 1 | none => 0
 
-/-- `parse_uses_value` -/
-def ghaUses (content : Text) (value : Text) (node : Node) : Option PkgInfo :=
+/-- a local action (`./path`) or a container image (`docker://image`) is not a repository: an `@` in it belongs to a
+    directory name or to an image digest -/
+def notRepository (value : Text) : Bool := startsWith value ['.'] || startsWith value "docker://".toList
+
+/-- `parse_uses_value`, for a value that names a repository -/
+def ghaUsesRepo (content : Text) (value : Text) (node : Node) : Option PkgInfo :=
   match Sites.usesSplit value with
   | some (some (owner, repo, version)) =>
     let name := owner ++ '/' :: repo
@@ -398,6 +402,10 @@ def ghaUses (content : Text) (value : Text) (node : Node) : Option PkgInfo :=
       | _ => some ⟨name, version, some version, so, node.eb, node.info.sr, col, none⟩
     else some ⟨name, version, none, so, node.eb, node.info.sr, col, none⟩
   | _ => none
+
+/-- `parse_uses_value` -/
+def ghaUses (content : Text) (value : Text) (node : Node) : Option PkgInfo :=
+  if notRepository value then none else ghaUsesRepo content value node
 
 mutual
 /-- `find_uses_in_steps` -/
